@@ -194,5 +194,22 @@ Prop_C07 ==
                /\ RSumOver(LAMBDA f : res.val[f],
                            Extensions(RestrictTo(lab, Range(keep)), Range(c.xd))) = RInt(1)
 
+(***************************************************************************)
+(* Prop_C04: the result does not depend on the STORAGE order of an operand: *)
+(* re-storing x (and, for binary operators, y) in the canonical order gives *)
+(* the same entries under the same labels.  The requested / target order    *)
+(* (yd of the reduce family) is part of the call, not storage, and is kept. *)
+(***************************************************************************)
+CanonOrder(ds) == SubSeqBy(MCCanon, Range(ds))
+CanonCfg(c) == IF Family = "arith" THEN [c EXCEPT !.xd = CanonOrder(c.xd), !.yd = CanonOrder(c.yd)]
+               ELSE [c EXCEPT !.xd = CanonOrder(c.xd)]
+Prop_C04 ==
+    Done => LET r0 == Apply(CanonCfg(cfg)) IN
+            IF res = Error \/ r0 = Error THEN res = r0
+            ELSE /\ Range(res.dims) = Range(r0.dims)
+                 /\ \A lab \in DOMAIN res.val : res.val[lab] = r0.val[lab]
+                 \* and the result's own order follows the documented rule, which for reductions / casts is the request
+                 /\ Family = "reduce" /\ cfg.op \in {"sum_to", "cast_to"} => res.dims = r0.dims
+
 TypeOK == phase \in {"cfg", "done"}
 =============================================================================
